@@ -45,13 +45,17 @@ StoreAcked(tab, vs) ==
     /\ ret' = [op |-> "StoreAcked"]
     /\ UNCHANGED up
 
-\* Kill: the content found afterwards is what the lookups after the following Reopen returned.
+\* Kill: the content found afterwards is what the lookups after the following Reopen returned - those of the first,
+\* sequential pass over all identifiers (each identified right after the call); the harness then repeats the lookups
+\* concurrently (pass 2), and every lookup line also says what the slice it returned holds after all later lookups
+\* ("held"): all of them must still be the stored bytes.
+FirstPass(ln) == IF "pass" \in DOMAIN ln.a THEN ln.a.pass = 1 ELSE TRUE
 GetRunEnd(i) ==
     LET stop == {j \in (i + 2)..(Len(Trace) + 1) : j = Len(Trace) + 1 \/ Trace[j].ev # "Get"}
     IN CHOOSE j \in stop : \A k \in stop : j <= k
 FoundAfter(i) ==
     IF i + 1 <= Len(Trace) /\ Trace[i + 1].ev = "Reopen" /\ Trace[i + 1].s.ok
-    THEN LET gets == {j \in (i + 2)..(GetRunEnd(i) - 1) : Len(Trace[j].s.res) > 0}
+    THEN LET gets == {j \in (i + 2)..(GetRunEnd(i) - 1) : FirstPass(Trace[j]) /\ Len(Trace[j].s.res) > 0}
              ids == {LId(Trace[j].a.id) : j \in gets}
          IN [x \in ids |-> LET j == CHOOSE k \in gets : LId(Trace[k].a.id) = x
                            IN IF LId(Trace[j].s.res[1].id) = x THEN Trace[j].s.res[1].tag ELSE "?foreign-id"]
@@ -75,21 +79,32 @@ Apply(ln) ==
       [] ln.ev = "Reopen"      -> IF ln.s.ok THEN Reopen ELSE FALSE      \* ReopenAlways: a failed reopen matches nothing
       [] OTHER                 -> FALSE
 
+\* Returned bytes stay what they were: s.held (when logged) identifies the slices the call returned once more, after
+\* every later call of the trace / lookup pass has run.  kind 1: s.res, kind 2: s.entries.
+HeldOK(s, kind) ==
+    IF "held" \notin DOMAIN s THEN TRUE
+    ELSE LET now == IF kind = 1 THEN s.res ELSE s.entries
+         IN /\ Len(s.held) = Len(now)
+            /\ \A i \in 1..Len(now) : LVal(s.held[i]) = LVal(now[i])
+
 \* The result the code reported must be the one the specification requires (ret, set by the action).
 Matches(ln) ==
     CASE ln.ev = "Store"       -> ln.s.err = ""
       [] ln.ev = "Get"         -> /\ ln.s.err = ""
                                   /\ ret.res = LOptVal(ln.s.res)
                                   /\ ln.s.code = (IF ret.res = Nil THEN "NotFound" ELSE "OK")
+                                  /\ HeldOK(ln.s, 1)
       [] ln.ev = "Gap"         -> /\ ln.s.err = "" /\ ~ln.s.badid
                                   /\ Len(ln.s.missing) = Cardinality(ToSet(ln.s.missing))
                                   /\ GapReportOK(ret.res, [missing |-> ToSet(ln.s.missing), first |-> ln.s.first, last |-> ln.s.last])
       [] ln.ev = "GovBatch"    -> /\ ln.s.err = ""
                                   /\ {LGovEntry(ln.s.entries[i]) : i \in 1..Len(ln.s.entries)} = ret.res
                                   /\ Len(ln.s.entries) = Cardinality(ret.res)
+                                  /\ HeldOK(ln.s, 2)
       [] ln.ev = "NonGovBatch" -> /\ ln.s.err = ""
                                   /\ {LNonGovEntry(ln.s.entries[i]) : i \in 1..Len(ln.s.entries)} = ret.res
                                   /\ Len(ln.s.entries) = Cardinality(ret.res)
+                                  /\ HeldOK(ln.s, 2)
       [] OTHER                 -> TRUE
 
 IsQuery(ln) == ln.ev \in {"Get", "Gap", "GovBatch", "NonGovBatch"}
